@@ -64,4 +64,66 @@ def simpleMiddle : List (Item α) → Bool
 def satW : Nat → Char → Bool := fun n c =>
   if n = 0 then c.isLower else if n = 1 then c == 'a' else if n = 2 then c == 'b' else c.isDigit
 
+/-! ## `re.search` on an arbitrary top-level item sequence (any mix of positional assertions)
+
+  A match of the item sequence occupies `mid`, with `pre` before it and `post` after it in the searched string.
+  Positional assertions consume nothing and look at the text on both sides of their position. -/
+
+/-- `\w` on ASCII text -/
+def isWordChar (c : Char) : Bool := c.isAlphanum || c == '_'
+
+def lastIsWord (pre : List Char) : Bool := match pre.getLast? with | some c => isWordChar c | none => false
+def headIsWord (post : List Char) : Bool := match post.head? with | some c => isWordChar c | none => false
+
+/-- what an assertion demands of the text before (`pre`) and after (`post`) its position; `bnd` interprets the
+    assertions the model does not name. `$` is read as end of input (see the head of this file). -/
+def atOK (bnd : List Char → List Char → Bool) : AtKind → List Char → List Char → Bool
+  | .bos, pre, _ => pre.isEmpty
+  | .bosA, pre, _ => pre.isEmpty
+  | .eos, _, post => post.isEmpty
+  | .eosZ, _, post => post.isEmpty
+  | .wordB, pre, post => lastIsWord pre != headIsWord post
+  | .nonWordB, pre, post => lastIsWord pre == headIsWord post
+  | .other, pre, post => bnd pre post
+
+/-- `SeqAt items pre mid post`: the items match `mid` in the context `pre · mid · post` -/
+inductive SeqAt {α : Type} (sat : α → Char → Bool) (bnd : List Char → List Char → Bool) :
+    List (Item α) → List Char → List Char → List Char → Prop
+  | nil {pre post} : SeqAt sat bnd [] pre [] post
+  | at {k rest pre mid post} : atOK bnd k pre (mid ++ post) = true → SeqAt sat bnd rest pre mid post →
+      SeqAt sat bnd (.at k :: rest) pre mid post
+  | item {x rest pre u w post} : x.isAt = false → Matches sat (itemRe x) u → SeqAt sat bnd rest (pre ++ u) w post →
+      SeqAt sat bnd (x :: rest) pre (u ++ w) post
+
+/-- `re.search(pattern, s)` is not `None` -/
+def Search {α : Type} (sat : α → Char → Bool) (bnd : List Char → List Char → Bool) (items : List (Item α))
+    (s : List Char) : Prop :=
+  ∃ pre mid post, s = pre ++ mid ++ post ∧ SeqAt sat bnd items pre mid post
+
+/-- `minLength <= len(s) <= maxLength` (absent keywords do not constrain) -/
+def LenOK (lo hi : Option Nat) (n : Nat) : Prop := lo.getD 0 ≤ n ∧ ∀ h, hi = some h → n ≤ h
+
+/-- what a string schema `{pattern, minLength, maxLength}` accepts when the length keywords are still there (`keep`)
+    or have been dropped -/
+def Accepts {α : Type} (sat : α → Char → Bool) (bnd : List Char → List Char → Bool) (items : List (Item α))
+    (keep : Bool) (lo hi : Option Nat) (s : List Char) : Prop :=
+  Search sat bnd items s ∧ (keep = true → LenOK lo hi s.length)
+
+/-- every top-level repeat has `lo <= hi` (what `sre_parse` guarantees) -/
+def wfItems : List (Item α) → Prop
+  | [] => True
+  | .rep lo hi _ :: rest => lo ≤ hi ∧ wfItems rest
+  | _ :: rest => wfItems rest
+
+/-- a bare literal or class (no quantifier of its own) -/
+def isBareAtom : Item α → Bool
+  | .lit _ => true
+  | .cls _ => true
+  | _ => false
+
+/-- the shape of finding F32: a single bare literal/class between two positional assertions (`^a$`, `\b[ab]\b`) -/
+def bareBetweenAt : List (Item α) → Bool
+  | [a, x, b] => a.isAt && b.isAt && isBareAtom x
+  | _ => false
+
 end SV.Spec.C01Regex
